@@ -317,7 +317,7 @@ func c11ReadIndex(c *Check) {
 		}
 		c.Result(okM && okV, "C11.E", "recvAck never regresses an acknowledgement", fnName(recvAck), p.site(mu), "acks[from] = max(acks[from], decoded)", v.Key())
 	}
-	c.Result(nU == 1, "C11.E", "recvAck update site", fnName(recvAck), p.Pos(recvAck.Pos()), "one map update", fmt.Sprint(nU))
+	c.Result(nU >= 1, "C11.E", "recvAck update site", fnName(recvAck), p.Pos(recvAck.Pos()), "recvAck records the acknowledgement (each update is classified above)", fmt.Sprint(nU))
 	// C11.M: maybeAdvance releases exactly the newly confirmed prefix
 	mfi := p.Info(maybeAdvance)
 	{
